@@ -3710,6 +3710,10 @@ class TensorDictBase(MutableMapping):
             raise ValueError(
                 f"The number of repeat elements must match the number of dimensions of the tensordict. Got {len(repeats)} but ndim={self.ndimension()}."
             )
+        if any(r < 0 for r in repeats):
+            raise RuntimeError(
+                f"Trying to create a tensordict with a negative dimension: repeats={tuple(repeats)}."
+            )
         return self._repeat(*repeats)
 
     @abc.abstractmethod
